@@ -10,7 +10,7 @@ for f in sorted(glob.glob('/verif/seeded/*/meta.json')):
     why = ob.group(1) if ob else (re.sub(r'^UNDECIDED property=\S+ reason=', '', line)[:110] if line else '')
     notes = open(os.path.dirname(f) + '/notes.md').read() if os.path.exists(os.path.dirname(f) + '/notes.md') else ''
     title = next((l.strip('# ').strip() for l in notes.split('\n') if l.strip()), '')[:90]
-    rows.append('| %s | %s | %s | %s | %s |' % (m['id'], ', '.join(os.path.basename(x) for x in m['files']), title.replace('|', '/'), det['result'], why.replace('|', '/')))
+    rows.append('| %s | %s | %s | %s | %s |' % (m['id'], ', '.join(os.path.basename(x) for x in m['files']), title.replace('|', '/'), det['result'] + (' (first: %s)' % m['first_verdict_before_strengthening'] if m.get('first_verdict_before_strengthening') else ''), why.replace('|', '/')))
 print('| seeded change | file | what it is | quick check | obligation that fails / reason |')
 print('|---|---|---|---|---|')
 print('\n'.join(rows))
